@@ -451,6 +451,8 @@ type Walker struct {
 	attempts map[*tlc.Node]map[string]int
 	visited  map[*tlc.Node]bool
 	inflight map[*tlc.Node]bool
+	dead     map[*tlc.Node]bool // targets given up: could not be reached / left the specification
+	tries    map[*tlc.Node]int
 	nCovered int
 	nEdges   int
 	next     int // index into G.Order of the next node that may have uncovered edges
@@ -462,7 +464,7 @@ type Walker struct {
 }
 
 func NewWalker(m *Model, ctx *vrun.Ctx) *Walker {
-	w := &Walker{M: m, Ctx: ctx, covered: map[*tlc.Node][]bool{}, attempts: map[*tlc.Node]map[string]int{}, visited: map[*tlc.Node]bool{}, inflight: map[*tlc.Node]bool{}, MaxLen: 2000}
+	w := &Walker{M: m, Ctx: ctx, covered: map[*tlc.Node][]bool{}, attempts: map[*tlc.Node]map[string]int{}, visited: map[*tlc.Node]bool{}, inflight: map[*tlc.Node]bool{}, dead: map[*tlc.Node]bool{}, tries: map[*tlc.Node]int{}, MaxLen: 2000}
 	for _, n := range m.G.Order {
 		w.covered[n] = make([]bool, len(n.Out))
 		w.attempts[n] = map[string]int{}
@@ -504,6 +506,9 @@ func (w *Walker) nextTarget() *tlc.Node {
 	w.mu.Lock()
 	defer w.mu.Unlock()
 	eligible := func(n *tlc.Node) bool {
+		if w.dead[n] {
+			return false
+		}
 		for lab, idxs := range w.M.ByLabel[n] {
 			if w.attempts[n][lab] >= maxAttempts {
 				continue
@@ -535,6 +540,18 @@ func (w *Walker) nextTarget() *tlc.Node {
 		return n
 	}
 	return busy
+}
+
+// noProgress records that a path sent to n covered nothing new; after two such
+// paths the target is given up (it cannot be reached on the real node, or its
+// remaining edges depend on choices the real node does not make).
+func (w *Walker) noProgress(n *tlc.Node) {
+	w.mu.Lock()
+	w.tries[n]++
+	if w.tries[n] >= 2 {
+		w.dead[n] = true
+	}
+	w.mu.Unlock()
 }
 
 func (w *Walker) release(n *tlc.Node) {
@@ -595,6 +612,12 @@ func (w *Walker) markCovered(n *tlc.Node, i int) {
 		w.nCovered++
 	}
 	w.mu.Unlock()
+}
+
+func (w *Walker) coveredNow() int {
+	w.mu.Lock()
+	defer w.mu.Unlock()
+	return w.nCovered
 }
 
 func (w *Walker) firstVisit(n *tlc.Node) bool {
@@ -849,7 +872,11 @@ func (w *Walker) Run(workers, maxPaths int, seedLabel string) error {
 				if t == nil {
 					return
 				}
+				before := w.coveredNow()
 				err := w.RunPath(t, rng)
+				if w.coveredNow() == before {
+					w.noProgress(t)
+				}
 				w.release(t)
 				if err != nil {
 					emu.Lock()
